@@ -116,6 +116,15 @@ func runC08(c *mon.Case) {
 			registry[k] = fmt.Sprintf("%s record #%d", d.name, idx)
 		}
 	}
+	partial := c.Idx%3 == 1
+	partialFlushes := 0
+	other := func(d *dirState) *dirState {
+		if d == a {
+			return b
+		}
+		return a
+	}
+	var readFn func(d *dirState)
 	write := func(d *dirState) {
 		i := d.written
 		var p []byte
@@ -145,7 +154,45 @@ func runC08(c *mon.Case) {
 			stop = true
 			return
 		}
-		if _, err := d.w.Flush(&d.stream); err != nil {
+		if partial && rng.Intn(4) == 0 {
+			// The transport accepts a part of the record and times out;
+			// the writer flushes again until the record is out. In between,
+			// the same Machine reads a record of the other direction.
+			wire := 18 + len(p) + 16
+			for attempt := 0; ; attempt++ {
+				lw := &budgetWriter{dst: &d.stream, budget: rng.Intn(wire + 1)}
+				if attempt > 6 {
+					lw.budget = wire
+				}
+				_, err := d.w.Flush(lw)
+				if err == nil {
+					break
+				}
+				if _, ok := err.(timeoutErr); !ok {
+					fail("write-error", fmt.Sprintf("%s Flush #%d: %v", d.name, i, err))
+					stop = true
+					return
+				}
+				partialFlushes++
+				if rng.Intn(3) == 0 {
+					// an impatient writer offers the next record before
+					// the pending one is out; it is refused (that is
+					// C16's subject) and must leave no trace in the
+					// cipher state
+					if err := d.w.WriteMessage([]byte("not yet")); err == nil {
+						c.Shard.Count("writes_accepted_while_pending_judged_by_C16", 1)
+						stop = true
+						return
+					}
+				}
+				if o := other(d); o.read < o.written && rng.Intn(2) == 0 {
+					readFn(o)
+					if stop {
+						return
+					}
+				}
+			}
+		} else if _, err := d.w.Flush(&d.stream); err != nil {
 			fail("write-error", fmt.Sprintf("%s Flush #%d: %v", d.name, i, err))
 			stop = true
 			return
@@ -187,6 +234,7 @@ func runC08(c *mon.Case) {
 		d.plains[i] = nil
 		d.read++
 	}
+	readFn = read
 	// schedule: bursts of one operation kind
 	sched := uint64(14695981039346656037)
 	for !stop && (a.read < a.n || b.read < b.n) {
@@ -237,6 +285,7 @@ func runC08(c *mon.Case) {
 		}
 	}
 	c.Shard.Count("records", int64(a.read+b.read))
+	c.Shard.Count("partial_flushes", int64(partialFlushes))
 	c.Shard.Count("key_nonce_pairs", int64(len(registry)))
 	c.Shard.Count("rotations", int64(len(a.wKeyChange)+len(b.wKeyChange)))
 	c.Shard.Count("wire_bytes_scanned", int64(a.wireBytes+b.wireBytes))
@@ -249,4 +298,22 @@ func runC08(c *mon.Case) {
 		rep["rotations_c2s"], rep["rotations_s2c"] = a.wKeyChange, b.wKeyChange
 		c.Shard.Sample(rep)
 	}
+}
+
+// budgetWriter accepts budget bytes and then reports a timeout, like a
+// connection whose write deadline strikes inside a record.
+type budgetWriter struct {
+	dst    *bytes.Buffer
+	budget int
+}
+
+func (w *budgetWriter) Write(p []byte) (int, error) {
+	if w.budget >= len(p) {
+		w.budget -= len(p)
+		return w.dst.Write(p)
+	}
+	n := w.budget
+	w.budget = 0
+	w.dst.Write(p[:n])
+	return n, timeoutErr{}
 }
